@@ -1,4 +1,5 @@
 import AlgoVerif.Model.C06X
+import AlgoVerif.Proofs.C06Fast
 /-!
 Line-protocol component for C06 (values are `Int`; keys are hex-encoded, `-` is the empty string).
 A case has two registers `a`, `b` holding tries of the implementation named by `comp=`; every operation
@@ -7,6 +8,7 @@ applies to `a`.
     put <hex> <int> | get <hex> | delete <hex> | deletemin | deletemax | deleteall | size | min | max
     floor <hex> | ceiling <hex> | select <int> | rank <hex> | range <hex> <hex> | rangesize <hex> <hex>
     all | withprefix <hex> | longestprefixof <hex> | match <hex> | dump
+    all2 (All() run twice, nested, and through two pull iterators: prints what `all` prints) | equalself (a.Equal(a))
     isempty | height | traverse <order> <stop> | anymatch <pred> | allmatch <pred> | firstmatch <pred>
     selectmatch <pred>     (b := a.SelectMatch; prints the dump of b)
     partitionmatch <pred>  (m, b := a.PartitionMatch; prints the dumps of m and b)
@@ -76,6 +78,7 @@ def parseOp (line : String) : Option (Op Int) :=
   | ["range", a, b] => do some (.range (← parseKey a) (← parseKey b))
   | ["rangesize", a, b] => do some (.rangeSize (← parseKey a) (← parseKey b))
   | ["all"] => some .all
+  | ["all2"] => some .all   -- `All()` run twice / nested / pulled alternately: iterations are independent, the answer is `All`
   | ["withprefix", k] => do some (.withPrefix (← parseKey k))
   | ["longestprefixof", k] => do some (.longestPrefixOf (← parseKey k))
   | ["match", k] => do some (.match (← parseKey k))
@@ -175,6 +178,12 @@ def runWith {σ : Type} (step : σ × σ → XOp Int → Outcome ((σ × σ) × 
   for line in ops do
     if dead then out := out.push "skip"; continue
     if line.trimAscii.toString == "dump" then out := out.push ("ok " ++ dump s.1); continue
+    if line.trimAscii.toString == "equalself" then   -- `a.Equal(a)`: `Equal` with both registers holding `a`; nothing changes
+      match step (s.1, s.1) .equal with
+      | .ok (_, o) => out := out.push (showXOut dump o)
+      | .panic => dead := true; out := out.push "panic"
+      | .diverge => dead := true; out := out.push "hang"
+      continue
     match parseXOp line with
     | none => out := out.push "bad-op"
     | some op =>
@@ -187,9 +196,11 @@ def runWith {σ : Type} (step : σ × σ → XOp Int → Outcome ((σ × σ) × 
 /-- `generic.NewEqualFunc[int]()`: `==` -/
 def eqInt (a b : Int) : Bool := a == b
 
+/-- the binary trie runs `Binary.xstepFast` (= `Binary.xstep`, `Proofs/C06Fast.lean`, restated as
+`C06_driver_step_is_model_step`): `All` in linear time -/
 def runCase (hdr : List String) (ops : List String) : List String :=
   match headerGet hdr "comp" with
-  | some "binary" => runWith (Binary.xstep eqInt) dumpBinary (Binary.new : Binary Int) ops
+  | some "binary" => runWith (Binary.xstepFast eqInt) dumpBinary (Binary.new : Binary Int) ops
   | some "patricia" => runWith (Patricia.xstep eqInt) dumpPatricia (Patricia.new : Patricia Int) ops
   | _ => ops.map fun _ => "bad-case"
 
